@@ -37,6 +37,9 @@ pub struct TlCase {
     pub timeout: u64,
     pub per_request: bool,
     pub cancel: bool,
+    /// drop the service (and every clone the harness holds) right after the last call was issued
+    #[serde(default)]
+    pub drop_service: bool,
     pub calls: Vec<TlCall>,
     pub order: Vec<u8>,
 }
@@ -75,13 +78,15 @@ fn case_strategy(_tier: Tier) -> BoxedStrategy<TlCase> {
         timeout_strategy(),
         any::<bool>(),
         any::<bool>(),
+        any::<bool>(),
         prop::collection::vec(call, 1..=5),
         prop::collection::vec(any::<u8>(), 0..=24),
     )
-        .prop_map(|(timeout, per_request, cancel, calls, order)| TlCase {
+        .prop_map(|(timeout, per_request, cancel, drop_service, calls, order)| TlCase {
             timeout,
             per_request,
             cancel,
+            drop_service,
             calls,
             order,
         })
@@ -148,7 +153,7 @@ async fn interp(case: &TlCase) -> Verdict {
     }
     let inner = Scripted::from_table(log.clone(), table, Step::ok(0));
     // two differently typed services (fixed / per-request timeout): box the call closure
-    let mut call: Box<dyn FnMut(Req) -> Fut> = if case.per_request {
+    let mut call: Option<Box<dyn FnMut(Req) -> Fut>> = Some(if case.per_request {
         let layer = TimeLimiterLayer::builder()
             .timeout_fn(|r: &Req| Duration::from_millis(r.tag))
             .cancel_running_future(case.cancel)
@@ -172,7 +177,8 @@ async fn interp(case: &TlCase) -> Verdict {
             ));
             svc.call(req)
         })
-    };
+    });
+    let last_arrival = case.calls.iter().map(|c| c.at).max().unwrap_or(0);
 
     let mut task = vec![None; n];
     let horizon = (0..n)
@@ -191,8 +197,13 @@ async fn interp(case: &TlCase) -> Verdict {
                     key: 0,
                     tag: touts[i],
                 };
-                task[i] = Some(sim.spawn_call(call(req), map_outcome));
+                let fut = (call.as_mut().expect("service alive until the last arrival"))(req);
+                task[i] = Some(sim.spawn_call(fut, map_outcome));
             }
+        }
+        if case.drop_service && t == last_arrival {
+            // nothing but the call futures (and what the layer spawned) refers to the service now
+            call = None;
         }
         sim.settle().await;
     }
@@ -351,6 +362,9 @@ async fn interp(case: &TlCase) -> Verdict {
     }
     if n > 1 {
         classes.push("concurrent_calls");
+    }
+    if case.drop_service {
+        classes.push("service_dropped_after_last_call");
     }
     Verdict {
         violations,
